@@ -3,7 +3,8 @@
    interleaving, exactly their single-threaded outputs.  The premise "no step writes the dictionary" is tied to the code by
    the regenerated shared-state inventory; data races inside unsafe / third-party code are outside any theorem (tested). *)
 From Coq Require Import List Arith String.
-From SudachiVerif Require Import Model.Interleave Proofs.InterleaveProofs Proofs.MutAuditClassified.
+From Coq Require Import NArith.
+From SudachiVerif Require Import Model.Interleave Proofs.InterleaveProofs Proofs.InterleaveCheckProofs Proofs.MutAuditClassified.
 From SudachiVerif Require Generated.MutAudit.
 
 Theorem C18_interleaving_noninterference :
@@ -21,6 +22,30 @@ Theorem C18_schedule_irrelevant :
     outputs_of Out t (snd (run D St Out step d st sched1)) = outputs_of Out t (snd (run D St Out step d st sched2)).
 Proof. exact schedule_irrelevant. Qed.
 Print Assumptions C18_schedule_irrelevant.
+
+(* what the premise "no step writes the shared value" buys: a protocol whose steps MAY write it is, as soon as none does,
+   a run of the read-only protocol with the shared value unchanged -- and then every thread has its solo outputs *)
+Theorem C18_read_only_steps_leave_dictionary_and_do_not_interfere :
+  forall (D St Out : Type) (stepw : D -> St -> D * (St * Out)),
+    read_only D St Out stepw ->
+    forall d sched st t s, nth_error st t = Some s ->
+      fst (runw D St Out stepw d st sched) = d /\
+      outputs_of Out t (snd (snd (runw D St Out stepw d st sched))) =
+        snd (solo D St Out (proj_step D St Out stepw) d s (count_occ Nat.eq_dec sched t)).
+Proof. exact read_only_noninterference. Qed.
+Print Assumptions C18_read_only_steps_leave_dictionary_and_do_not_interfere.
+
+(* the evaluator of the correspondence shards is sound for the statement above: an observed concurrent run that it accepts
+   gave every thread exactly the single-threaded results (table entries) of the texts it analysed, in its own order *)
+Theorem C18_accepted_run_is_sequential_per_thread :
+  forall d streams events,
+    check_interleave d streams events = true ->
+    forall t s, nth_error streams t = Some s ->
+      let k := count_occ Nat.eq_dec (map fst events) t in
+      k <= List.length s ->
+      outputs_of N t events = map (lookup d) (firstn k s).
+Proof. exact check_interleave_sequential. Qed.
+Print Assumptions C18_accepted_run_is_sequential_per_thread.
 
 (* ---- obligations on regenerated facts ---- *)
 Lemma C18_fact_shared_state_classified : Generated.MutAudit.shared_state = classified.
